@@ -161,7 +161,7 @@ def run(ctx):
     if not model:
         ctx.tie(False)
         return
-    chunk = 450
+    chunk = 300
     jobs, index = make_jobs(bases, groups, chunk)
     results = ctx.coq_eval_many(jobs, workers=vlib.NCPU)
     ph["coq_eval"] = round(time.time() - t0, 1)
